@@ -1,5 +1,7 @@
-(* Extraction for the C17 correspondence driver: Ledger histories + scheduled queries. *)
+(* Extraction for the C17 correspondence driver: Ledger histories + scheduled queries + scheduled
+   transaction-building calls. *)
 From Coq Require Import Extraction ExtrOcamlBasic.
-Require Import MW.Ledger.Model MW.Ledger.Spec MW.Ledger.Run MW.Sched.Reads.
+Require Import MW.Ledger.Model MW.Ledger.Spec MW.Ledger.Run MW.Sched.Reads MW.Sched.Build.
 Extraction "model.ml" step init_sim model_report spec_report own_of process
-  answer nreads answer_at stores_of immature_at store_at monotone.
+  answer nreads answer_at stores_of immature_at store_at monotone
+  build_sched tx_boundary refusal_boundary lookup_can_fail manual_lookups manual_boundary cands idx.
